@@ -1285,7 +1285,9 @@ def unit_weight(u):
         return 5
     if u["part"] == "S":
         return 4 if u["driver"].startswith("yaml") else 2
-    return 1
+    # the small families (W, D/T/K/I/H, B, C: 36 short units, each the only home of its dimension) go first, so that
+    # a run cut by the wall-clock cap on an overloaded machine loses a slice of family A rather than a whole family
+    return 6
 
 
 # ---- exploration -------------------------------------------------------------------------------
